@@ -5,7 +5,7 @@ Every label, invariant, initialiser and argument carries a site-unique
 constant so that any mis-attachment shows in the comparison."""
 import xmlgen as X
 
-GDECL = "int g1 = 901; int g2; int ga; int gb; int gc; clock gx; chan c; broadcast chan bc; clock gxs[2]; clock gys[2];"
+GDECL = "const int GLO = 1; const int GHI = 3; typedef int[-2, GHI] gsel_t; int g1 = 901; int g2; int ga; int gb; int gc; clock gx; chan c; broadcast chan bc; clock gxs[2]; clock gys[2];"
 
 
 class Loc:
@@ -110,7 +110,7 @@ def t_rate(k):
     return "%d" % k, "(CONSTANT:INT %d)" % k
 
 
-SEL_NAME = {0: "s", 1: "s", 2: "g2", 3: "gx"}
+SEL_NAME = {0: "s", 1: "s", 2: "g2", 3: "gx", 4: "s", 5: "s", 6: "s"}
 
 
 def t_assign(k, with_select, style=0):
@@ -127,6 +127,13 @@ def t_select(k, style=0):
     b = SEL_NAME[style]
     if style == 1:
         return "s : int[0,%d], s2 : int[0,1]" % k, "[s:%s s2:%s]" % (rng % k, rng % 1)
+    # ranges without a literal bound (named constants, a negated literal, an expression), a typedef name, a scalar set
+    if style == 4:
+        return "s : int[GLO, GHI]", "[s:(CONSTANT (RANGE (INT) <(IDENTIFIER GLO)> <(IDENTIFIER GHI)>))]"
+    if style == 5:
+        return "s : int[-GHI, GHI + 1]", "[s:(CONSTANT (RANGE (INT) <(UNARY_MINUS (IDENTIFIER GHI))> <(PLUS (IDENTIFIER GHI) (CONSTANT:INT 1))>))]"
+    if style == 6:
+        return "s : gsel_t", "[s:(CONSTANT (LABEL gsel_t:(RANGE (INT) <(UNARY_MINUS (CONSTANT:INT 2))> <(IDENTIFIER GHI)>)))]"
     return "%s : int[0,%d]" % (b, k), "[%s:%s]" % (b, rng % k)
 
 
@@ -555,7 +562,7 @@ def build(choose, common=False, bp_base=True):
                 # (a weight on an edge that leaves a location is unusual but accepted and kept by the library: a deviation)
                 if on[0]:
                     e.select = 600 + ei + 1
-                    e.selstyle = choose(4, tag + ".selstyle")
+                    e.selstyle = choose(7, tag + ".selstyle")
                 if on[1]:
                     e.guard = k + 101
                     e.guardstyle = choose(4, tag + ".guardstyle")
